@@ -347,6 +347,16 @@ def observe(nn_state, R, numeric=False, force=None):
                 nn_state.__dict__[name] = old
 
 
+def has_second(cfg, i):
+    """does the i-th (1-based) callback, a MetricEvaluator, carry the second metric "a"?"""
+    d = cfg["cbs"][i - 1]
+    return d["t"] == "eval" and d.get("kind", "metric") == "metric" and (i + len(cfg["cbs"]) + cfg["epochs"]) % 2 == 0
+
+
+def second_value(ep):
+    return -1000.5 - ep
+
+
 def build_callbacks(cfg, R, plan, nn_state, tmpdir):
     """cfg['cbs'] descriptors -> real callback objects (list order preserved)."""
     objs = [None] * len(cfg["cbs"])
@@ -381,7 +391,11 @@ def build_callbacks(cfg, R, plan, nn_state, tmpdir):
                     if vk == "ndarray0d":
                         return np.array(float(v))
                     return np.float64(v) if vk == "np" else float(v)
-                slot.append(MetricEvaluator(d["period"], {"m": metric}, verbose=bool(d.get("verbose")),
+                metrics = {"m": metric}
+                if has_second(cfg, i):
+                    # a second metric registered AFTER "m" whose name sorts BEFORE it, with unmistakable values
+                    metrics["a"] = lambda nn, **kw: second_value(R.cur_ep)
+                slot.append(MetricEvaluator(d["period"], metrics, verbose=bool(d.get("verbose")),
                                             log=os.path.join(tmpdir, "eval%d.csv" % i) if d.get("log") else None,
                                             extra_kw=1))
             else:
